@@ -1,7 +1,7 @@
 """C03 Order lifecycle: one operation in flight, legal transitions, finality — E1 simx part
 (simulated exchange) + E2 livex part (Betfair / Betdaq doubles, added by props/c03_live when built)."""
 from mc import core
-from props import simlife as L, c04, livelife
+from props import simlife as L, c04, livelife, betdaqlife
 
 CLAUSES = {
     "C03.a": "every status change follows the documented lifecycle",
@@ -62,12 +62,15 @@ def run(tier):
         "refusals by controls (return False) are judged by C02, not here",
     ]
     livelife.explore_live(rep, ENABLED, tier)
+    betdaqlife.explore_betdaq(rep, ENABLED, tier)
     rep.engine = "E1 simx + E2 livex"
     return rep.finish()
 
 
 def replay(rep):
     c = rep["case"]
+    if "betdaq" in c:
+        return betdaqlife.replay_betdaq(c, ENABLED)
     if "path" in c:
         return livelife.replay_live(c, ENABLED)
     r = L.run_history(c["history"], ENABLED, c.get("cfg"))
